@@ -94,6 +94,13 @@ pub fn run_mp_case(l: &[i64]) -> Vec<i64> {
         Err(_) => return vec![W_PANIC],
     };
     let mut out = vec![0];
+    let mut prof = prof;
+    // Updatable::update of a profile does nothing and succeeds; a deviation is reported by 96 (never produced by the model)
+    let before = format!("{:?}", prof);
+    if <MotionProfile as Updatable<E>>::update(&mut prof).is_err() || format!("{:?}", prof) != before {
+        return vec![96];
+    }
+    let prof = prof;
     let (t1, t2, t3) = private_times(&prof);
     out.extend([t1, t2, t3]);
     private_max_acc_and_end(&prof, &mut out);
